@@ -159,6 +159,9 @@ def main():
                 m_stats["holds"] += 1
                 if reach or not has_w:
                     m_stats["nontrivial"] += 1
+            elif q["verdict"] == "counterexample" and q["kind"] in ("fpexact", "exhaustive", "unwind"):
+                inconclusive.append("M query %s in %s: outside the encoder's model/bound (%s) for input %s: %s" %
+                                    (q["name"], r["job"], q["kind"], q["model"], q["detail"][:100]))
             elif q["verdict"] == "counterexample":
                 cex.append((r, q))
             else:
@@ -168,7 +171,7 @@ def main():
         if len(m_stats["samples"]) < 6 and r["queries"]:
             m_stats["samples"].append({"engine": "M", "job": r["job"], "params": r.get("params"),
                                        "queries": [(q["name"], q["verdict"], q["seconds"]) for q in r["queries"] if q["kind"] != "panic"][:6],
-                                       "panic_obligations": sum(1 for q in r["queries"] if q["kind"] in ("panic", "unwind", "exhaustive"))})
+                                       "panic_obligations": sum(1 for q in r["queries"] if q["kind"] in ("panic", "unwind", "exhaustive", "fpexact"))})
     if cex:
         from mirsmt import spec as mspec
         built = mspec.build_native()
@@ -251,6 +254,9 @@ def main():
                 else:
                     rep = any(o.get("outcome") == "PANIC" for o in outs.values())
                     label = "%s.%s.panic" % (pid, short)
+                    if any(o.get("outcome") == "HARNESS_PANIC" for o in outs.values()):
+                        inconclusive.append("K harness %s: the harness/oracle code itself panics (%s) - harness bug, not a finding" % (short, outs))
+                        continue
                 rec = {"property": pid, "label": label, "engine": "K", "harness": h["name"], "kani_check": lab,
                        "vals": t["vals"], "native": outs, "detail": lab}
                 if rep:
